@@ -4,21 +4,30 @@ import Tftp.Model.Config
 namespace Tftp.Driver
 open Tftp
 
+/-- the working directory of the implementation run (`W<hex>` in the oracle list): a directory argument equal to it is
+printed as `CWD`, because the implementation's configuration cannot tell it from the default -/
+def cwdOf (s : String) : Option Bytes :=
+  (s.splitOn ",").findSome? fun it =>
+    match it.toList with
+    | 'W' :: h => bytesOfHex (String.ofList h)
+    | _ => none
+
 def parseOracle (s : String) : Option Oracles :=
   if s = "-" then some { ipOk := fun _ => false, pathExists := fun _ => false } else do
   let items ← (s.splitOn ",").mapM fun it =>
     match it.toList with
     | 'I' :: h => (bytesOfHex (String.ofList h)).map (fun b => (true, b))
     | 'P' :: h => (bytesOfHex (String.ofList h)).map (fun b => (false, b))
+    | 'W' :: h => (bytesOfHex (String.ofList h)).map (fun b => (false, b))
     | _ => none
   let ips := (items.filter (·.1)).map (·.2)
   let paths := (items.filter (fun x => !x.1)).map (·.2)
   pure { ipOk := fun t => ips.contains t, pathExists := fun t => paths.contains t }
 
 def b01 (b : Bool) : String := if b then "1" else "0"
-def optHex (o : Option Bytes) (dflt : String) : String :=
+def optHex (o : Option Bytes) (dflt : String) (cwd : Option Bytes := none) : String :=
   match o with
-  | some b => hexOfBytes b
+  | some b => if cwd = some b then dflt else hexOfBytes b
   | none => dflt
 
 def cfgLine (toks : List String) : String :=
@@ -32,7 +41,7 @@ def cfgLine (toks : List String) : String :=
         | .help => "help"
         | .ok f =>
           let c := f.c
-          s!"ok ip={optHex c.ip "-"},port={c.port},dir={optHex c.dir "CWD"},rd={optHex f.recv "CWD"},sd={optHex f.send "CWD"},single={b01 c.singlePort},ro={b01 c.readOnly},dup={c.dup},ow={b01 c.overwrite},clean={b01 c.cleanOnError}"
+          s!"ok ip={optHex c.ip "-"},port={c.port},dir={optHex c.dir "CWD" (cwdOf orc)},rd={optHex f.recv "CWD" (cwdOf orc)},sd={optHex f.send "CWD" (cwdOf orc)},single={b01 c.singlePort},ro={b01 c.readOnly},dup={c.dup},ow={b01 c.overwrite},clean={b01 c.cleanOnError}"
       else
         match clientConfig o as with
         | .err => "err"
